@@ -170,15 +170,11 @@ MultiFails ==
             \cup F(e.ints = semI, "G_C12_Compatible", CDir(~semI) \o ClsOver({k \in KA \cap KB : ~SemKey(k, FALSE)}))
 
 \* ---------------------------------------------------------------- bookkeeping
-MaxSigs == 8
 Key(p) == p[1] \o "|" \o p[2]
 Record(fails) ==
-    \* first witness of every (guard, signature); at most MaxSigs signatures per guard are kept with a witness (a
-    \* broken build can fail in hundreds of classes; `cnt` still counts them all).  MaxSigs exceeds the number of
-    \* known-finding signatures of any guard, so a fresh signature is never crowded out by known ones.
+    \* first witness of every (guard, signature); `cnt` counts every failure
     /\ viol' = viol \cup {[guard |-> p[1], sig |-> p[2], line |-> l, id |-> Ev.id] :
-                            p \in {q \in fails : /\ ~\E y \in viol : y.guard = q[1] /\ y.sig = q[2]
-                                                  /\ Cardinality({y \in viol : y.guard = q[1]}) < MaxSigs}}
+                            p \in {q \in fails : ~\E y \in viol : y.guard = q[1] /\ y.sig = q[2]}}
     /\ cnt' = LET ks == {Key(p) : p \in fails} IN
               [k \in DOMAIN cnt \cup ks |-> (IF k \in DOMAIN cnt THEN cnt[k] ELSE 0) + (IF k \in ks THEN 1 ELSE 0)]
 
@@ -187,8 +183,10 @@ TraceNext ==
        /\ \/ (Ev.e = "Cfg" /\ cfg' = [universe |-> Ev.universe, custom |-> Ev.custom, custom2 |-> Ev.custom2,
                                       wk |-> Ev.wk, alias |-> Ev.alias]
               /\ ntr' = ntr + 1 /\ UNCHANGED <<viol, cnt>>)
-          \/ (Ev.e = "Case" /\ Record(CaseFails) /\ UNCHANGED <<ntr, cfg>>)
-          \/ (Ev.e = "Multi" /\ Record(MultiFails) /\ UNCHANGED <<ntr, cfg>>)
+          \* (\E over a singleton: binds the evaluated set of failures once; operator arguments are re-evaluated
+          \*  lazily at every use otherwise, which made a step cost |cnt| guard evaluations)
+          \/ (Ev.e = "Case" /\ (\E f \in {CaseFails} : Record(f)) /\ UNCHANGED <<ntr, cfg>>)
+          \/ (Ev.e = "Multi" /\ (\E f \in {MultiFails} : Record(f)) /\ UNCHANGED <<ntr, cfg>>)
           \/ (Ev.e = "CasePanic" /\ Record({<<"G_C12_New", "panic">>}) /\ UNCHANGED <<ntr, cfg>>)
     \/ /\ l = Len(Trace) + 1 /\ ~done /\ done' = TRUE
        /\ JsonSerialize(IOEnv.OUT, [viol |-> viol, counts |-> cnt, consumed |-> l - 1, traces |-> ntr])
